@@ -453,6 +453,13 @@ def _plan(w, t, op, model):
         if with_t:
             operands.insert(len(operands) // 2, t)
             expect |= set(model)
+        if extras:
+            # an exact Set (multiunion appends its keys wholesale) right after the walked operands, and a TreeSet
+            # (walked with the library's cursor) before a bare integer
+            so = F.cls(w.fam, 'Set', w.impl)([w.K(a) for a in extras])
+            to = F.cls(w.fam, 'TreeSet', w.impl)([w.K(a) for a in extras[:2]])
+            operands.insert(min(2, len(operands)), so)
+            operands.insert(1, to)
         expect = sorted(expect)
         p.fallback_ok = True
         p.target_is_new = True
